@@ -33,6 +33,8 @@ def describe_deep(fn, op_or_place, depth=4):
             return "const %r%s" % (c["s"], proj)
         if "fn" in c:
             return "fn:" + c["fn"].rsplit("::", 1)[-1]
+        if "static" in c:
+            return "static:" + c["static"].rsplit("::", 1)[-1]
         if "ch" in c:
             return "const %r" % c["ch"]
         return "const %s%s" % (c.get("v"), proj)
